@@ -47,10 +47,14 @@ type c02Case struct {
 	// Deflated: websocket: perMessageDeflate is configured, the client negotiated it and sends its messages
 	// compressed (those that get smaller that way)
 	Deflated bool
+	// OversizedAt > 0: polling / jsonp: before the data request with this number (1 = the first) the client submits one whose declared
+	// length exceeds maxHttpBufferSize; it is refused (413, C10) and the session goes on: the requests after it are
+	// delivered as if it had not been there
+	OversizedAt int
 }
 
 func (c c02Case) String() string {
-	return fmt.Sprintf("{%s rev%d b64=%v v3binary=%v pkts=%s split=%v frags=%v wtform=%d tail=%s tight=%v netcut=%d chunk=%d deflated=%v}", c.Carrier, c.Rev, c.B64, c.V3Binary, pktsString(c.Pkts), c.Split, c.Frags, c.WTForm, c.Tail, c.Tight, c.NetCut, c.Chunk, c.Deflated)
+	return fmt.Sprintf("{%s rev%d b64=%v v3binary=%v pkts=%s split=%v frags=%v wtform=%d tail=%s tight=%v netcut=%d chunk=%d deflated=%v oversizedRequestBefore=%d}", c.Carrier, c.Rev, c.B64, c.V3Binary, pktsString(c.Pkts), c.Split, c.Frags, c.WTForm, c.Tail, c.Tight, c.NetCut, c.Chunk, c.Deflated, c.OversizedAt)
 }
 
 var c02Texts = []string{"", "a", "hello", "4", "0", "2probe", "5:4abc", "1:2", "12:", "b4aGVsbG8=", "bQUJD", "ünï", "😀", "a😀b€c", "日本語テキスト", "with\nnewline", "back\\slash", "\\n", "\\\\n", "quote\"'", "a:b:c", "%41+%2B&d=x", "\t\r", "{\"k\":[1,2]}", "  ", "</script>"}
@@ -159,6 +163,9 @@ func genC02(rt *rapid.T, knownScanner bool, col *Collector) c02Case {
 	if (c.Carrier == "polling" || c.Carrier == "jsonp") && rapid.IntRange(0, 2).Draw(rt, "chunked") == 0 {
 		c.Chunk = rapid.SampledFrom([]int{1, 3, 100, 4096, 70000}).Draw(rt, "chunk")
 	}
+	if (c.Carrier == "polling" || c.Carrier == "jsonp") && rapid.IntRange(0, 3).Draw(rt, "oversizedRequest") == 0 {
+		c.OversizedAt = rapid.IntRange(1, 4).Draw(rt, "oversizedAt")
+	}
 	c.Deflated = c.Carrier == "websocket" && rapid.IntRange(0, 2).Draw(rt, "deflated") == 0
 	c.Tight = rapid.IntRange(0, 2).Draw(rt, "tightLimit") == 0
 	c.Tail = rapid.SampledFrom([]string{"none", "none", "afterClose", "candidate", "cutUpload", "cutUpload"}).Draw(rt, "tail")
@@ -265,6 +272,16 @@ func runC02(c c02Case) (fail string, stats map[string]bool) {
 			}
 			chunk := c.Pkts[i : i+n]
 			hadCloseBefore := closeAt >= 0 && closeAt < i
+			if c.OversizedAt == k && !hadCloseBefore {
+				ob, oct := s.pc.EncodePost([]Pkt{msgT("part of a request that is too large")}, c.V3Binary)
+				limit := w.Srv.Opts().MaxHttpBufferSize()
+				oe := s.pc.StartPostRaw(ob, oct, func(r *ReqSpec) { r.ContentLength = limit + 1; r.BodyChunk = 0 })
+				Settle()
+				if osnap := oe.Snap(); osnap.Status != 413 {
+					return fmt.Sprintf("data request declaring %d bytes (limit %d) answered %v, want 413", limit+1, limit, osnap), stats
+				}
+				stats["data-request-after-an-oversized-one-was-refused"] = true
+			}
 			ex := s.pc.StartPost(chunk, c.V3Binary)
 			Settle()
 			snap := ex.Snap()
@@ -555,7 +572,7 @@ func TestC02Inbound(t *testing.T) {
 		}
 	})
 	req := []string{"carrier.polling.rev4", "carrier.polling.rev3", "carrier.jsonp.rev4", "carrier.jsonp.rev3", "carrier.websocket.rev4", "carrier.websocket.rev3", "carrier.webtransport.rev4", "v3-binary-payload", "multi-packet-payload", "non-ascii-text", "binary", "empty-data", "close-not-last", "post-after-close", "candidate-traffic", "traffic-after-close", "fragmented-frames", "non-minimal-length-form", ">=64KiB", "tight-limit"}
-	req = append(req, "connection-died-inside-a-payload", "frame-header-split-in-transit", "data-requests-without-declared-length", "message-sent-compressed")
+	req = append(req, "connection-died-inside-a-payload", "frame-header-split-in-transit", "data-requests-without-declared-length", "message-sent-compressed", "data-request-after-an-oversized-one-was-refused")
 	col.RequireClasses(t, req...)
 }
 
